@@ -88,7 +88,9 @@ class UAIReader(object):
             grammar += function_grammar
 
         floatnumber = Combine(
-            Word(nums) + Optional(Literal(".") + Optional(Word(nums)))
+            Word(nums)
+            + Optional(Literal(".") + Optional(Word(nums)))
+            + Optional(Regex("[eE][+-]?[0-9]+"))
         )
         for function in range(0, self.no_functions):
             no_values_grammar = Word(nums).setResultsName(
